@@ -148,7 +148,7 @@ def fam_loops():
 
 
 def fam_scoping():
-    sites = ["top", "if", "for", "while", "lambda", "catch", "try", "forlet", "else", "and"]
+    sites = ["top", "if", "for", "while", "lambda", "catch", "try", "forlet", "else", "and", "switch", "switch2", "switchbind", "switchlist", "switchfail"]
     actions = [("decl", "v", I(5)), ("set", "v", I(6)), P(V("v")), seq(("decl", "v", I(5)), ("set", "v", I(6)), P(V("v")))]
 
     def at(site, act):
@@ -172,6 +172,16 @@ def fam_scoping():
             return ("try", act, "e", P(I(-1)))
         if site == "and":
             return ("and", I(1), act)
+        if site == "switch":
+            return ("switch", I(1), [(("plit", 1), act), (("pwild",), I(0))])
+        if site == "switch2":      # an earlier arm binds v; the action runs in a later arm, where that binding must not exist
+            return ("switch", I(2), [(("plit", 1), I(0)), (("plist", ["v"]), P(V("v"))), (("pwild",), act)])
+        if site == "switchbind":   # the arm's own pattern binds v
+            return ("switch", I(3), [(("pname", "v"), act)])
+        if site == "switchlist":
+            return ("switch", ("list", [I(3), I(4)]), [(("plist", ["v"]), I(0)), (("plist", ["w", "v"]), act)])
+        if site == "switchfail":   # an arm binds v and then fails on its literal: the binding must be gone in the arm that runs
+            return ("switch", ("list", [I(3), I(4)]), [(("plistl", ["v"], 9), I(0)), (("plist", ["w", "q"]), act)])
         raise KeyError(site)
     for outer in (True, False):
         for s1 in sites:
@@ -243,6 +253,10 @@ def fam_lambdas():
         [("p", "a")], [("p", "a"), ("p", "b")], [("p", "a"), ("pd", "b", I(7))], [("pd", "a", I(6)), ("pd", "b", I(7))],
         [("p", "a"), ("pd", "b", seq(P(I(70)), I(7)))], [("ps", "r")], [("p", "a"), ("ps", "r")], [("ps", "r"), ("p", "a")],
         [("p", "a"), ("ps", "r"), ("p", "b")], [], [("p", "a"), ("pd", "b", V("outer"))],
+        # defaults around a splat, a default before a plain parameter
+        [("ps", "r"), ("pd", "c", I(7))], [("p", "a"), ("ps", "r"), ("pd", "c", I(7))], [("pd", "a", I(6)), ("ps", "r")], [("pd", "a", I(6)), ("p", "b")],
+        [("p", "a"), ("ps", "r"), ("pd", "c", seq(P(I(70)), I(7)))], [("pd", "a", seq(P(I(60)), I(6))), ("ps", "r"), ("pd", "c", seq(P(I(70)), I(7)))],
+        [("pd", "a", seq(P(I(60)), I(6))), ("ps", "r"), ("p", "b")],
     ]
     for sh in shapes:
         names = [p[1] for p in sh]
@@ -363,8 +377,6 @@ def cases(tier, shard, nshards):
             cnt += 1
             if cnt % nshards != shard:
                 continue
-            if tier == "quick" and fam in ("loops", "scoping") and j % 3:
-                continue
             yield Case(R.render(prog), {"fam": fam, "ast": prog, "nodes": 9}, opts=OPTS)
 
 
@@ -438,7 +450,7 @@ def top_feature(ast):
 
     def walk(e):
         if isinstance(e, (tuple, list)) and e and isinstance(e[0], str):
-            if e[0] in ("while", "for", "break", "continue", "return", "try", "throw", "lambda", "call", "decl", "set", "opset", "eval", "and", "or", "coalesce", "if"):
+            if e[0] in ("while", "for", "break", "continue", "return", "try", "throw", "lambda", "call", "decl", "set", "opset", "eval", "and", "or", "coalesce", "if", "switch"):
                 seen.add(e[0])
             for x in e[1:]:
                 walk(x)
